@@ -508,7 +508,7 @@ async def _connect(options: _Options, config: DefTuple[ConfigPaths],
                 _, tunnel_session = await new_tunnel.create_connection(
                     cast(SSHTCPSessionFactory[bytes], conn_factory),
                     host, port)
-            except Exception:
+            except (Exception, asyncio.CancelledError):
                 new_tunnel.close()
                 await new_tunnel.wait_closed()
                 raise
@@ -584,7 +584,7 @@ async def _listen(options: _Options, config: DefTuple[ConfigPaths],
         try:
             tunnel_server = await new_tunnel.create_server(
                 tunnel_factory, host, port)
-        except Exception:
+        except (Exception, asyncio.CancelledError):
             new_tunnel.close()
             await new_tunnel.wait_closed()
             raise
